@@ -892,7 +892,10 @@ func c03QueueSetting(rng *Rng) string {
 // three, so several bindings share one; `queue` absent or named) through the real loader into a real
 // HookController with a real (not started) schedule manager; EnableScheduleBindings, then one
 // HandleScheduleEvent per crontab. Compared with Model/Routing (op schedfan) and judged by the oracle
-// fanout: one info per binding with that crontab, for the queue it names.
+// fanout: one info per binding with that crontab, for the queue it names. Plus 0-3 kubernetes bindings
+// through the real kubernetes bindings controller (fake events manager): one event per monitor, the info
+// must carry the queue of the binding that owns the monitor. Binding names: all different / none named /
+// from a pool of two; queue names include look-alikes of `main` and of each other.
 func c03Controller(c *Case, rng *Rng) {
 	v0 := rng.Chance(30)
 	pool := []string{"1 1 1 1 *", "*/5 * * * *", "3 3 3 3 *"}
@@ -929,6 +932,40 @@ func c03Controller(c *Case, rng *Rng) {
 		}
 		if b.queue != "" {
 			fmt.Fprintf(&y, "  queue: %s\n", b.queue)
+		}
+	}
+	// 0-3 kubernetes bindings, named by the same regime
+	var kbs []bnd
+	for j := rng.Range(0, 3); j > 0; j-- {
+		b := bnd{name: fmt.Sprintf("k%d", len(kbs)+1)}
+		switch naming {
+		case 1:
+			b.name = ""
+		case 2:
+			b.name = fmt.Sprintf("k%d", rng.Range(1, 2))
+		}
+		if !v0 {
+			b.queue = PickOne(rng, queues)
+		}
+		kbs = append(kbs, b)
+	}
+	if len(kbs) > 0 {
+		if v0 {
+			y.WriteString("onKubernetesEvent:\n")
+		} else {
+			y.WriteString("kubernetes:\n")
+		}
+		for _, b := range kbs {
+			y.WriteString("- kind: Pod\n")
+			if v0 {
+				y.WriteString("  event: [add]\n")
+			}
+			if b.name != "" {
+				fmt.Fprintf(&y, "  name: %s\n", b.name)
+			}
+			if b.queue != "" {
+				fmt.Fprintf(&y, "  queue: %s\n", b.queue)
+			}
 		}
 	}
 	ver := "v1"
@@ -989,7 +1026,38 @@ func c03Controller(c *Case, rng *Rng) {
 		sort.Strings(cfgL)
 		c.Oracle(fmt.Sprintf("fanout kind=schedule cfg=%s got=%s", joinStrs(cfgL), joinStrs(got)))
 	}
-	c.Nontrivial = len(bs) >= 2
+	// the kubernetes bindings: the real controller's links (monitor id -> binding), one event per monitor
+	if len(kbs) > 0 && len(cfg.OnKubernetesEvents) == len(kbs) {
+		hc.InitKubernetesBindings(cfg.OnKubernetesEvents, &fakeKem{ch: make(chan kemtypes.KubeEvent, 1)}, log.NewNop())
+		if err := hc.HandleEnableKubernetesBindings(func(controller.BindingExecutionInfo) {}); err != nil {
+			c.Oracle("opflag what=kubernetes-bindings-enabled ok=false")
+			return
+		}
+		for i, kc := range cfg.OnKubernetesEvents {
+			obj := &unstructured.Unstructured{Object: map[string]interface{}{"apiVersion": "v1", "kind": "Pod",
+				"metadata": map[string]interface{}{"name": fmt.Sprintf("p%d", i), "namespace": "default"}}}
+			ev := kemtypes.KubeEvent{MonitorId: kc.Monitor.Metadata.MonitorId, Type: kemtypes.TypeEvent,
+				WatchEvents: []kemtypes.WatchEventType{kemtypes.WatchEventAdded},
+				Objects:     []kemtypes.ObjectAndFilterResult{{Object: obj}}}
+			var got []string
+			hc.HandleKubeEvent(ev, func(info controller.BindingExecutionInfo) {
+				got = append(got, info.Binding+"="+showQueueName(info.QueueName))
+			})
+			q, n := kbs[i].queue, kbs[i].name
+			if q == "" {
+				q = "-"
+			}
+			if n == "" {
+				n = "kubernetes"
+				if v0 {
+					n = "onKubernetesEvent"
+				}
+			}
+			c.Oracle(fmt.Sprintf("fanout kind=kubernetes cfg=%s:%s got=%s", n, q, joinStrs(got)))
+		}
+		c.Note("controller:has-kubernetes-bindings")
+	}
+	c.Nontrivial = len(bs)+len(kbs) >= 2
 	c.Note("kind:controller-" + ver)
 	c.Note(fmt.Sprintf("controller:naming-%d", naming))
 }
